@@ -404,7 +404,11 @@ def main() -> int:
             todo = [r for r in todo if r['file'] in a.files.split(',')]
         if a.limit:
             todo = todo[:a.limit]
-        out = open(a.out, 'w') if a.out else sys.stdout
+        done_ids = set()
+        if a.out and os.path.exists(a.out):
+            done_ids = {json.loads(l)['id'] for l in open(a.out) if l.strip()}
+        todo = [r for r in todo if r['id'] not in done_ids]
+        out = open(a.out, 'a') if a.out else sys.stdout
         with concurrent.futures.ThreadPoolExecutor(max_workers=a.jobs) as ex:
             for r in ex.map(lambda m: run_suite_on(a.repo, m), todo):
                 out.write(json.dumps(r) + '\n')
